@@ -45,8 +45,10 @@ namespace ola {
 using std::string;
 
 BaseTimeVal::BaseTimeVal(int32_t sec, int32_t usec) {
-  m_tv.tv_sec = sec;
-  m_tv.tv_usec = usec;
+  // Keep the timeval normalised (0 <= tv_usec < 1s), TimerAdd / TimerSub and
+  // the comparison operators rely on it.
+  m_tv.tv_sec = sec + usec / USEC_IN_SECONDS;
+  m_tv.tv_usec = usec % USEC_IN_SECONDS;
 }
 
 BaseTimeVal& BaseTimeVal::operator=(const BaseTimeVal& other) {
